@@ -247,6 +247,17 @@ class Session:
         files = sorted(f for f in files if f.endswith(ext))
         return root, files
 
+    def declared_package(self, path):
+        """package the source file declares (stub files carry the translator's package in their marker line)."""
+        try:
+            with open(path, errors='replace') as f:
+                head = f.read(4000)
+        except OSError:
+            return None
+        m = re.search(r'^// c15 pid=\d+ role=\w+ package=(\S+)', head, re.M) or \
+            re.search(r'^\s*package\s+([A-Za-z_][\w.]*)', head, re.M)
+        return m.group(1) if m else None
+
     def attribute(self, path, batch_records):
         """(pid, role) of a source file: by the marker the stub translator
         wrote, else by the oracle map recorded when the program was generated."""
@@ -296,7 +307,8 @@ class Session:
                     toks = [err_token(pid, role, k) for k in range(max(1, int(pp['nerr'])))]
                 noise = bool(pp['noise']) and role == 'correct'
             rfiles.append((path, toks, noise))
-            seen.append({'path': path, 'pid': pid, 'role': role, 'errors': toks})
+            seen.append({'path': path, 'pid': pid, 'role': role, 'errors': toks, 'package': self.declared_package(path),
+                         'directory': os.path.basename(os.path.dirname(path))})
         crashers = [p for p in pids if prog_plan(self.plan, p)['crash']]
         ctok = crash_token(pids) if crashers else None
         variant = (pids[0] if pids else 0) + len(pids)
